@@ -943,6 +943,39 @@ def rule_shared_containers(rep: Report, ix, facts: ck.ClassFacts) -> None:
                     else "no construction of the expression with a new container was found in this class: it may hold the caller's object"
                 )
                 report(f, st, attr, how, why)
+    # ---- arguments: a function that receives such a container (a parameter named like the constructor parameter of the
+    # expression classes) and hands it on must not change the caller's object either -- e.g. a derived entry written into
+    # the caller's `consts` is found again (stale) by the next call with the same dictionary
+    arg_names = set(shared.values())
+    for f in ix.all_functions():
+        if f.module.rel.startswith(SHARED_CONTAINER_SKIP_PREFIX) or (f.cls in fam_set) or (ck.top_function(f).cls in fam_set):
+            continue
+        fa = f.node.args
+        fparams = {p.arg for p in fa.posonlyargs + fa.args + fa.kwonlyargs} & arg_names
+        if not fparams:
+            continue
+
+        def match3(e, fparams=fparams):
+            return e.id if isinstance(e, ast.Name) and e.id in fparams else None
+
+        for st, name, how in _mutations(f, match3):
+            n_checked += 1
+            rep.saw("functions", f.ref)
+            fresh = [
+                n
+                for n in ck.walk_no_classes(f.node)
+                if isinstance(n, (ast.Assign, ast.AnnAssign)) and n.value is not None and any(ck.is_name(t, name) for t in (n.targets if isinstance(n, ast.Assign) else [n.target])) and ck.is_fresh_container(n.value)
+            ]
+            ok = any(ck.dominates(f, n, st) for n in fresh)
+            rep.oblige(f"argument-container-not-mutated:{ck.display_name(f)}:{name}:{how}", ok)
+            if not ok:
+                rep.violation(
+                    "C04.shared-container-mutated",
+                    f"{ck.display_ref(f)}::argument::{name}",
+                    f"`{ck.display_name(f)}` changes its argument `{name}` in place (`{ast.unparse(st)[:70]}`) on a path where it is still the caller's object: the entry stays in the caller's dictionary and is "
+                    "found again by the next call with the same dictionary (a value derived from this call's grid / state is then silently re-used: the result depends on what was computed before)",
+                    line=st.lineno,
+                )
     rep.extra["shared_container_mutations_checked"] = n_checked
 
 
